@@ -299,6 +299,23 @@ func c09Kauri(c *Ctx) {
 	if n == 0 {
 		c.Unresolved("C09.7", "mergeContribution", "no store to aggContrib")
 	}
+	// only contributions for the view being aggregated are merged
+	if ocr := p.Method("protocol/comm", "Kauri", "onContributionRecv"); ocr != nil {
+		fo := NewFlow(p, ocr)
+		n := 0
+		for _, s := range callsIn(ocr, false, func(cc *ssa.CallCommon) bool { return calleeIs(cc, mc) }) {
+			n++
+			facts := fo.At(s)
+			okV := hasCmp(facts, "==", is("p0->"+kKauri+"currentView"), func(k string) bool { return strings.Contains(k, "kauripb.Contribution") && strings.Contains(k, "View") })
+			arg := fo.K.Key(s.Common().Args[1])
+			okA := strings.HasPrefix(arg, "hs/internal/proto/hotstuffpb.QuorumSignatureFromProto(") && strings.Contains(arg, "kauripb.Contribution") && strings.Contains(arg, "Signature")
+			c.Check(okV && okA, "C09.7/view", "onContributionRecv: merges only contributions for the current aggregation view", p.Pos(s.Pos()),
+				"mergeContribution(decoded contribution.Signature) is reached only under currentView == contribution.View", "view gate: "+boolStr(okV)+", argument is the contribution's signature: "+boolStr(okA))
+		}
+		if n == 0 {
+			c.Unresolved("C09.7/view", "onContributionRecv", "no mergeContribution call")
+		}
+	}
 	// emission
 	emitted := false
 	for _, e := range p.constructSites(namedType(p, "", "NewViewMsg")) {
